@@ -411,6 +411,107 @@ def part_decorators(payload):
     return part
 
 
+
+# ------------------------------------------------------------------ same spelling, different unit
+def part_same_spelling(payload):
+    """Two quantities whose units are *spelled* alike but are not the same unit: the symbol was re-scaled between their creation
+    (same registry object), or the two registries define it differently.  Every helper must decide by the physics: by the scale
+    each unit object carries (units created before an edit keep their value), never by the text."""
+    import itertools
+
+    from unyt import Unit, unyt_array, unyt_quantity
+    from unyt.array import allclose_units
+    from unyt.dimensions import length, time
+    from unyt.testing import assert_allclose_units, assert_array_equal_units
+    from unyt.unit_registry import UnitRegistry
+
+    known = core.Known("C19")
+    part = core.Part()
+
+    def verdict(fn):
+        try:
+            r = fn()
+        except AssertionError:
+            return "refused"
+        except Exception as e:
+            return "raised:" + type(e).__name__
+        if r is None:
+            return "accepted"
+        return "accepted" if bool(np.all(r)) else "refused"
+
+    def scenarios():
+        for s1, s2, sym, compound in itertools.product((1.0, 4.0), (2.0, 0.5), ("vfl", "code_length"), ("{}", "{}/s", "k{}", "{}**2")):
+            # (a) one registry, symbol re-scaled between the two constructions
+            reg = UnitRegistry()
+            reg.add(sym, s1, length, prefixable=True)
+            spell = compound.format(sym)
+            yield "modified-in-between", spell, reg, reg, (lambda r=reg, y=sym, v=s2: r.modify(y, v))
+            # (b) removed and re-added
+            reg = UnitRegistry()
+            reg.add(sym, s1, length, prefixable=True)
+            yield "removed-and-re-added", spell, reg, reg, (lambda r=reg, y=sym, v=s2: (r.remove(y), r.add(y, v, length, prefixable=True)))
+            # (c) two registries
+            r1, r2 = UnitRegistry(), UnitRegistry()
+            r1.add(sym, s1, length, prefixable=True)
+            r2.add(sym, s2, length, prefixable=True)
+            yield "two-registries", spell, r1, r2, (lambda: None)
+
+    for how, spell, r1, r2, edit in scenarios():
+        for via in ("string", "unit-object"):
+            for scalar in (False, True):
+                mk = (lambda v, u, r: unyt_quantity(v[0], u, registry=r)) if scalar else (lambda v, u, r: unyt_array(np.array(v), u, registry=r))
+                vals = [1.5, 3.0, -0.75]
+                u_old = Unit(spell, registry=r1) if via == "unit-object" else spell
+                old = mk(vals, u_old, r1)
+                f_old = float(old.units.base_value)
+                edit()
+                u_new = Unit(spell, registry=r2) if via == "unit-object" else spell
+                new_same_numbers = mk(vals, u_new, r2)
+                f_new = float(new_same_numbers.units.base_value)
+                if f_old == f_new or str(old.units) != str(new_same_numbers.units):
+                    part.count("scenario did not produce two same-spelled different units")
+                    continue
+                ratio = f_old / f_new  # exactly a power of two here
+                new_same_physics = mk([v * ratio for v in vals], u_new, r2)
+                det = {"how": how, "spelling": spell, "via": via, "scalar": scalar, "scale_old": f_old, "scale_new": f_new}
+                closeness = (
+                    ("allclose_units", lambda x, y: allclose_units(x, y, 1e-9)), ("assert_allclose_units", lambda x, y: assert_allclose_units(x, y, 1e-9)),
+                    ("np.allclose", lambda x, y: np.allclose(x, y, rtol=1e-9, atol=0)), ("np.isclose", lambda x, y: np.isclose(x, y, rtol=1e-9, atol=0)),
+                )
+                for nm, f in closeness:
+                    for order, (x, y) in (("old,new", (old, new_same_numbers)), ("new,old", (new_same_numbers, old))):
+                        part.ev()
+                        part.nt(("same-spelling", how, spell, via, scalar, nm, order, "same-numbers"))
+                        v = verdict(lambda: f(x, y))
+                        if v == "accepted":
+                            core.classify(known, part, f"C19:{nm}:decides-by-spelling:same-numbers-different-unit-accepted", dict(det, order=order, x=repr(x)[:80], y=repr(y)[:80]))
+                    for order, (x, y) in (("old,new", (old, new_same_physics)), ("new,old", (new_same_physics, old))):
+                        part.ev()
+                        part.nt(("same-spelling", how, spell, via, scalar, nm, order, "same-physics"))
+                        v = verdict(lambda: f(x, y))
+                        if v != "accepted":
+                            core.classify(known, part, f"C19:{nm}:decides-by-spelling:same-quantity-refused", dict(det, order=order, verdict=v, x=repr(x)[:80], y=repr(y)[:80]))
+                equality = (
+                    ("np.array_equal", lambda x, y: np.array_equal(x, y)), ("np.array_equiv", lambda x, y: np.array_equiv(x, y)),
+                    ("assert_array_equal_units", lambda x, y: assert_array_equal_units(x, y)),
+                )
+                for nm, f in equality:
+                    for order, (x, y) in (("old,new", (old, new_same_numbers)), ("new,old", (new_same_numbers, old))):
+                        part.ev()
+                        part.nt(("same-spelling", how, spell, via, scalar, nm, order))
+                        v = verdict(lambda: f(x, y))
+                        if v == "accepted":
+                            core.classify(known, part, f"C19:{nm}:decides-by-spelling:unequal-units-accepted", dict(det, order=order, x=repr(x)[:80], y=repr(y)[:80]))
+                    # control: a twin built the same way as `new` is equal to it
+                    twin = mk(vals, u_new, r2)
+                    part.ev()
+                    if verdict(lambda: f(new_same_numbers, twin)) != "accepted":
+                        core.classify(known, part, f"C19:{nm}:equal-arrays-rejected:after-registry-edit", dict(det))
+                if len(part.samples) < 2:
+                    part.sample({"scenario": how, "old": repr(old)[:60], "old_scale": f_old, "new": repr(new_same_numbers)[:60], "new_scale": f_new,
+                                 "allclose_units(old,new)": verdict(lambda: allclose_units(old, new_same_numbers, 1e-9))})
+    return part
+
 def run(ctx):
     ctx.rule = (
         "Hypothesis cases for the closeness helpers: (actual, desired) in 6 unit families x units, values placed at theta x tolerance from the boundary "
@@ -419,7 +520,9 @@ def run(ctx):
         "array_equal family; exhaustive decorators: every dimension in unyt.dimensions x SI/CGS/imperial/galactic spellings x 17 accepts usages "
         "(positional, keyword, mixed, default, keyword-only, varargs, wrong at each position) and 4 returns usages with call counter and identity of "
         "the returned object. non-trivial = boundary cases (theta .99/1.01) with actual and desired in different units; array_equal cases with "
-        "physically equal but differently spelled operands; every (dimension, usage) of the decorators"
+        "physically equal but differently spelled operands; every (dimension, usage) of the decorators; plus a deterministic grid of same-spelled but "
+        "different units (symbol re-scaled / removed and re-added between two constructions in one registry, two registries) x 4 spellings x string / "
+        "Unit-object construction x scalar / array x 7 helpers x both argument orders"
     )
     ctx.assumptions = [
         "the statement's semantics: atol in its own unit, or the desired value's unit when bare; verdicts are computed on SI magnitudes from the independent table",
@@ -429,6 +532,7 @@ def run(ctx):
     n = ctx.pick(9600, 160000)
     ctx.merge(core.pmap(MOD, "part_random", [{"n": n // 16, "seed": ctx.seed * 1000 + i} for i in range(16)]))
     ctx.merge(core.pmap(MOD, "part_decorators", [{"lo": i, "step": 16} for i in range(16)]))
+    ctx.merge(core.pmap(MOD, "part_same_spelling", [{}]))
 
 
 def replay(ctx, data):
